@@ -33,7 +33,6 @@ structure AImg where
   deriving Repr, DecidableEq, Inhabited
 
 /-- forget where an object lies -/
-def erase (d : RawDesc) : RawDesc := { d with off := 0, sizePad := 0 }
 
 def absSlot (st : Store) (d : RawDesc) : Option AObj :=
   if d.used then some { d := erase d, content := objContent st d } else none
@@ -75,15 +74,17 @@ def hasPrimary (a : AImg) : Bool := a.objs.any isPrimary
 
 end AImg
 
-/-- the error an ill-formed selector raises (as soon as it is evaluated on any object) -/
-def Sel.bad : Sel → Option Err
-  | .id 0 => some .invalidObjectID
-  | .linkedID 0 => some .invalidObjectID
-  | .groupID 0 => some .invalidGroupID
-  | .linkedGroupID 0 => some .invalidGroupID
-  | _ => none
+/-- the error a selector answers with on an object: a zero ID or group is ill-formed whatever the
+    object, a caller's own function answers as it likes -/
+def Sel.bad : Sel → RawDesc → Option Err
+  | .id 0, _ => some .invalidObjectID
+  | .linkedID 0, _ => some .invalidObjectID
+  | .groupID 0, _ => some .invalidGroupID
+  | .linkedGroupID 0, _ => some .invalidGroupID
+  | .pred f, d => (match f d with | .error e => some e | .ok _ => none)
+  | _, _ => none
 
-/-- the objects a well-formed selector denotes -/
+/-- the objects a selector denotes (where it does not answer with an error) -/
 def Sel.sat (ph : Bytes → Option Bytes) (s : Sel) (d : RawDesc) : Bool :=
   match s with
   | .dataType dt => d.dtype == dt
@@ -94,6 +95,7 @@ def Sel.sat (ph : Bytes → Option Bytes) (s : Sel) (d : RawDesc) : Bool :=
   | .linkedGroupID g => d.linkIsGroup && d.linkedID == g
   | .partType pt => d.isPartitionOfType pt
   | .ociDigest t => (match ociText ph d with | some t' => t' == t | none => false)
+  | .pred f => (match f d with | .ok b => b | .error _ => false)
 
 namespace AImg
 
@@ -146,10 +148,11 @@ def add (sha : Bytes → Bytes) (a : AImg) (di : DI) (topt : TOpt) (now : Int) :
                 arch := di.md.primaryArch a.arch, mtime := t }, .ok)
 
 /-- **delete**: every object the selector denotes disappears; deleting the primary partition
-    resets the architecture -/
+    resets the architecture.  A selector that answers with an error on any object (the first one in
+    table order counts) rejects the whole operation: nothing is deleted. -/
 def del (ph : Bytes → Option Bytes) (a : AImg) (sel : Sel) (topt : TOpt) (now : Int) : AImg × Res :=
-  match sel.bad with
-  | some e => if a.objs = [] then (a, .err .objectNotFound) else (a, .err e)
+  match a.objs.findSome? (fun o => sel.bad o.d) with
+  | some e => (a, .err e)
   | none =>
     if !a.objs.any (fun o => sel.sat ph o.d) then (a, .err .objectNotFound)
     else
